@@ -44,6 +44,12 @@ def load_sources():
 
 def apply(m, sources):
     src = dict(sources)
+    if callable(m.old):
+        try:
+            out = m.old(dict(src))
+        except Exception:
+            return None
+        return out
     for mod, old, new, cnt in [(m.module, m.old, m.new, m.count)] + [(a[0], a[1], a[2], a[3] if len(a) > 3 else 1) for a in m.also]:
         if mod not in src or src[mod].count(old) != cnt:
             return None
